@@ -73,6 +73,7 @@ func runC04(c *kit.Ctx) {
 	// ---- R1 ---------------------------------------------------------------
 	c.StartRule("R1", "classification tables are disjoint and map to distinct classes", 6)
 	exceptionTableOracle(c)
+	headerExceptionIsClassified(c)
 	var classSet []types.Type
 	{
 		tables := []string{"javaRetryableExceptions", "javaRegionExceptions", "javaServerExceptions"}
@@ -150,6 +151,7 @@ func runC04(c *kit.Ctx) {
 
 	// ---- R2 ---------------------------------------------------------------
 	c.StartRule("R2", "every consumer of result errors is exhaustive over the classes it must handle", 5)
+	probeClassifiesOutcome(c)
 	required := map[string][]string{
 		"(*gohbase.client).SendRPC":           allNames,
 		"(*gohbase.client).waitForCompletion": allNames,
